@@ -10,7 +10,9 @@
 //	violation     a panic leaves NewPlan/Execute, the worker dies or hangs;            (a)
 //	              two runs on equal roots differ;                                      (b)
 //	              the plan rebuilt from String() behaves differently;                  (c)
-//	              $.src changed although the plan calls no set/setall/del/delall;      (d)
+//	              $.src (whole subtree, before/after) changed although the plan calls no  (d)
+//	              set/setall/del/delall, or only ones that target places outside $.src
+//	              in a stream that never stores references to existing data;
 //	              implementation != documented behaviour (model without deviations,    (e)
 //	              and Spec.describe on literal arguments)
 //	known         a violation explained exactly by an entry of known_findings.json: the result equals
@@ -237,10 +239,47 @@ func buildCases() []kase {
 	}
 	rep.Exhaustive = append(rep.Exhaustive, fmt.Sprintf("every eager modelled function (%d names) applied to every list of at most 2 literal arguments drawn from %d values covering all kinds (null, booleans, int64 incl. 2^53+1, float64 incl. -0 and 2^53, strings, an array, a map): %d plans, each checked against Spec.describe, the model and the documented model", len(eager), len(vals), nbox))
 
+	// exhaustive equality box: every ordered pair of maps/lists with null members and near-miss key sets,
+	// as literals and fetched by path, for equal and neq
+	ev := eqBoxValues()
+	neq := 0
+	for _, f := range []string{"equal", "neq"} {
+		for i, x := range ev {
+			for j, y := range ev {
+				emit(kase{stream: "eqbox", plan: render([]any{"set", "$.asm", []any{f, x, y}}), root: boxRoot, alias: true,
+					spec: &specQ{fn: f, args: render([]any{x, y})}})
+				neq++
+				if (i+j)%3 == 0 {
+					emit(kase{stream: "eqbox", plan: render([]any{"set", "$.asm", []any{f, "$.src.p", []any{"get", "$.src.q"}}}),
+						root: render(map[string]any{"src": map[string]any{"p": x, "q": y}}), alias: true})
+					neq++
+				}
+			}
+		}
+	}
+	rep.Exhaustive = append(rep.Exhaustive, fmt.Sprintf("equal and neq on every ordered pair of %d maps/lists with null members, absent keys and near-miss key sets (same size, one key renamed), as literals and (a third of the pairs) fetched by path: %d plans", len(ev), neq))
+
 	r := lib.NewRng(*seed)
-	nModel, nAll, nEnum, nMal, nTriple := 9000, 5000, 1500, 1500, 2500
+	nModel, nAll, nEnum, nMal, nTriple, nFrame := 9000, 5000, 1500, 1500, 2500, 4000
 	if full {
-		nModel, nAll, nEnum, nMal, nTriple = 160000, 90000, 20000, 25000, 40000
+		nModel, nAll, nEnum, nMal, nTriple, nFrame = 160000, 90000, 20000, 25000, 40000, 60000
+	}
+	// frame: mutator-free plans that hand data under $.src by reference to every function in turn
+	{
+		var pool []string
+		for _, f := range allFunctions() {
+			if !mutators[f] {
+				pool = append(pool, f)
+			}
+		}
+		gf := &gen{r: r.Fork(6), fns: pool, alias: true, sloppy: 10}
+		for i := 0; i < nFrame; i++ {
+			f := pool[i%len(pool)]
+			if i%3 == 0 { // the functions that take a list get it more often
+				f = gf.pick([]string{"sort", "reverse", "append", "each", "join", "include", "nth", "list", "equal", "getall", "string", "cond", "asm"})
+			}
+			emit(kase{stream: "frame", plan: render(gf.framePlan(f)), root: render(gf.frameRoot())})
+		}
 	}
 	// three-argument literal calls (random sample of the box's continuation)
 	g3 := &gen{r: r.Fork(5)}
@@ -562,8 +601,15 @@ func judge(d *lib.Driver, k *kase, w WOut, v verdicts) {
 		}
 	}
 	// (d) $.src changes only through the mutators
-	if !r.SrcSame && !hasMutator(mustTree(k.plan)) {
-		violation(k, "src-changed:"+base, "$.src changed although the plan calls none of set/setall/del/delall", map[string]any{"src_after": r.SrcAfter})
+	// — judged for every plan without a mutator, and for every plan of the streams that never store a
+	// reference to existing data whose mutators all name a target outside $.src by a literal path
+	if !r.SrcSame {
+		pt := mustTree(k.plan)
+		if !hasMutator(pt) {
+			violation(k, "src-changed:"+base, "$.src changed although the plan calls none of set/setall/del/delall", map[string]any{"src_after": r.SrcAfter})
+		} else if !k.alias && srcSafeMutators(pt) {
+			violation(k, "src-changed:"+base, "$.src changed although every set/setall/del/delall of the plan targets a place outside $.src and no reference to existing data is stored", map[string]any{"src_after": r.SrcAfter})
+		}
 	}
 	// (c) String() rebuilds the plan
 	if r.StrPanic == "" && !r.Nil {
